@@ -224,7 +224,7 @@ func (c18) closeAt(sc core.Scenario, r *core.R) {
 		step(echo("a"), echo("a"))
 		h2 := Tok("h")
 		env.Svc.Hold(h2)
-		add(Go(h2, func() (string, error) { return cl.Echo(bg, h2, "") }))
+		add(Go(h2, func() (string, error) { return cl.EchoR(bg, h2, "") })) // retry-tagged, in flight across the close
 		sub(bg)
 		step(echo("a"))
 	}()
@@ -263,9 +263,17 @@ func (c18) closeAt(sc core.Scenario, r *core.R) {
 	}
 	for i := 0; i < 20; i++ {
 		t := Tok("l")
-		o := Go(t, func() (string, error) { return cl.Echo(bg, t, "") })
+		o := Go(t, func() (string, error) {
+			switch i % 3 { // plain, retry-tagged, retry-tagged without a context parameter
+			case 1:
+				return cl.EchoR(bg, t, "")
+			case 2:
+				return cl.NoCtxR(t)
+			}
+			return cl.Echo(bg, t, "")
+		})
 		if !o.Wait(core.Grace) {
-			r.Violate("late-call-blocked", "%s: a call issued after close blocks instead of returning an error", where)
+			r.Violate("late-call-blocked", "%s: a call (variant %d: 0 plain, 1 retry-tagged, 2 retry-tagged without context) issued after close blocks instead of returning an error", where, i%3)
 			break
 		}
 		if o.Err == nil {
